@@ -110,6 +110,8 @@ scoped instance subVec {d : Nat} : HSub (Vec d) (Vec d) (Vec d) := ⟨fun a b =>
 scoped instance subRow {n d : Nat} : HSub (Mat n d) (Vec d) (Mat n d) := ⟨fun P c => fun i j => P i j - c j⟩
 /-- `-v` -/
 scoped instance negVec {d : Nat} : Neg (Vec d) := ⟨negV⟩
+/-- `a - b` on per-triangle vectors `(n_tris, 2)` -/
+scoped instance subTriVecs : HSub (List V2) (List V2) (List V2) := ⟨List.zipWith V2.sub⟩
 /-- `point set / k` -/
 scoped instance divNat {n d : Nat} : HDiv (Mat n d) Nat (Mat n d) := ⟨fun P k => fun i j => P i j / (k : Rat)⟩
 /-- `1.0 / column` -/
@@ -173,6 +175,11 @@ def zip3With {α β γ δ : Type} (f : α → β → γ → δ) : List α → Li
 /-- `points[trilist]`: the three corners of every triangle -/
 def cornersOf (pts : Nat → V2) (tris : List Tri) : List (V2 × V2 × V2) :=
   tris.map fun t => (pts t.1, pts t.2.1, pts t.2.2)
+
+/-- `x[:, 0]`, `x[:, 1]`, `x[:, 2]` of `points[trilist]`: first, second, third corner of every triangle -/
+def cornerI (l : List (V2 × V2 × V2)) : List V2 := l.map fun c => c.1
+def cornerJ (l : List (V2 × V2 × V2)) : List V2 := l.map fun c => c.2.1
+def cornerK (l : List (V2 × V2 × V2)) : List V2 := l.map fun c => c.2.2
 
 /-- a triangle mesh: points and triangle list -/
 structure Mesh where
